@@ -235,6 +235,47 @@ def _desugar_stmt(st: ast.stmt, nxt: T.Optional[ast.stmt]) -> T.Optional[T.Tuple
                 ast.copy_location(x, st)
                 ast.fix_missing_locations(x)
             return chain, False
+    # for a, b in zip((x1, x2), (y1, y2))   ->   for a, b in ((x1, y1), (x2, y2))
+    if isinstance(st, ast.For) and isinstance(st.iter, ast.Call) and isinstance(st.iter.func, ast.Name) and st.iter.func.id == 'zip' and not st.iter.keywords \
+            and len(st.iter.args) >= 2 and all(isinstance(a, (ast.Tuple, ast.List)) and not any(isinstance(x, ast.Starred) for x in a.elts) for a in st.iter.args) \
+            and len({len(a.elts) for a in st.iter.args}) == 1:
+        st.iter = ast.copy_location(ast.Tuple(elts=[ast.Tuple(elts=[a.elts[i] for a in st.iter.args], ctx=ast.Load()) for i in range(len(st.iter.args[0].elts))], ctx=ast.Load()), st.iter)
+        ast.fix_missing_locations(st)
+    # v = next((E for x in (c1, c2, c3) if P), D)   ->   if P[c1]: v = E[c1] elif P[c2]: v = E[c2] ... else: v = D
+    if isinstance(st, ast.Assign) and len(st.targets) == 1 and isinstance(st.targets[0], ast.Name) and isinstance(st.value, ast.Call) and isinstance(st.value.func, ast.Name) \
+            and st.value.func.id == 'next' and len(st.value.args) == 2 and not st.value.keywords and isinstance(st.value.args[0], ast.GeneratorExp) \
+            and len(st.value.args[0].generators) == 1:
+        g = st.value.args[0]
+        gen = g.generators[0]
+        if isinstance(gen.iter, (ast.Tuple, ast.List)) and isinstance(gen.target, ast.Name) and 1 <= len(gen.iter.elts) <= 6 and not any(isinstance(x, ast.Starred) for x in gen.iter.elts):
+            var = gen.target.id
+
+            def inst(e: ast.expr, val: ast.expr) -> ast.expr:
+                class R(ast.NodeTransformer):
+                    def visit_Name(self, n: ast.Name) -> ast.AST:
+                        return copy.deepcopy(val) if n.id == var and isinstance(n.ctx, ast.Load) else n
+                return R().visit(copy.deepcopy(e))
+            tname = st.targets[0].id
+            chain2: T.List[ast.stmt] = [ast.Assign(targets=[ast.Name(id=tname, ctx=ast.Store())], value=st.value.args[1], type_comment=None)]
+            for c in reversed(gen.iter.elts):
+                test: ast.expr = ast.BoolOp(op=ast.And(), values=[inst(t, c) for t in gen.ifs]) if len(gen.ifs) > 1 else (inst(gen.ifs[0], c) if gen.ifs else ast.Constant(value=True))
+                chain2 = [ast.If(test=test, body=[ast.Assign(targets=[ast.Name(id=tname, ctx=ast.Store())], value=inst(g.elt, c), type_comment=None)], orelse=chain2)]
+            for x in chain2:
+                ast.copy_location(x, st)
+                ast.fix_missing_locations(x)
+            return chain2, False
+    # try: x = M[k] except KeyError: H   ->   if k in M: x = M[k] else: H        (catalogue A7, EAFP -> LBYL)
+    if isinstance(st, ast.Try) and not st.orelse and not st.finalbody and len(st.handlers) == 1 and len(st.body) == 1 \
+            and isinstance(st.handlers[0].type, ast.Name) and st.handlers[0].type.id == 'KeyError' \
+            and not (st.handlers[0].name and any(isinstance(n, ast.Name) and n.id == st.handlers[0].name for b in st.handlers[0].body for n in ast.walk(b))):
+        b0 = st.body[0]
+        if isinstance(b0, ast.Assign) and isinstance(b0.value, ast.Subscript) and isinstance(b0.value.value, (ast.Name, ast.Attribute)) \
+                and isinstance(b0.value.slice, (ast.Name, ast.Attribute, ast.Constant)) and all(isinstance(t, ast.Name) for t in b0.targets):
+            test2 = ast.Compare(left=copy.deepcopy(b0.value.slice), ops=[ast.In()], comparators=[copy.deepcopy(b0.value.value)])
+            new_if = ast.If(test=test2, body=[b0], orelse=st.handlers[0].body)
+            ast.copy_location(new_if, st)
+            ast.fix_missing_locations(new_if)
+            return [new_if], False
     # for t in (a, b, c): BODY   ->   t = a; BODY; t = b; BODY; t = c; BODY        (a display: finite, declared in the source)
     if isinstance(st, ast.For) and not st.orelse and isinstance(st.iter, (ast.Tuple, ast.List)) and 1 <= len(st.iter.elts) <= 6 \
             and not any(isinstance(x, ast.Starred) for x in st.iter.elts) and not _has_loop_exit(st.body):
@@ -330,6 +371,9 @@ def _boolish(e: ast.AST) -> bool:
     return isinstance(e, (ast.BoolOp, ast.Compare)) or (isinstance(e, ast.UnaryOp) and isinstance(e.op, ast.Not))
 
 
+_RESULT_NAMES: T.List[T.Set[str]] = [set()]     # names returned by the function being prepared: result accumulators, not named conditions
+
+
 def _inline_named_conditions(body: T.List[ast.stmt]) -> None:
     """`c = a and b` ... `if c:`  ->  `if a and b:` when nothing `c` reads (nor c) is re-bound in between (catalogue C3):
     the enumerator then decomposes the condition instead of treating the local as one opaque truth value."""
@@ -363,7 +407,7 @@ def _inline_named_conditions(body: T.List[ast.stmt]) -> None:
         if isinstance(st, ast.Assign) and len(st.targets) == 1 and isinstance(st.targets[0], ast.Name) and _boolish(st.value) \
                 and not any(isinstance(n, (ast.NamedExpr, ast.Await, ast.Yield)) for n in ast.walk(st.value)):
             reads = {n.id for n in ast.walk(st.value) if isinstance(n, ast.Name)}
-            if st.targets[0].id not in reads:      # an accumulator (`flag = flag or c`) is not a named condition
+            if st.targets[0].id not in reads and st.targets[0].id not in _RESULT_NAMES[-1]:      # an accumulator / the result flag is not a named condition
                 defs[st.targets[0].id] = (st.value, reads)
 
 
@@ -373,6 +417,11 @@ def _inline_display_locals(body: T.List[ast.stmt]) -> None:
     for st in body:
         if isinstance(st, ast.For) and isinstance(st.iter, ast.Name) and st.iter.id in defs:
             st.iter = copy.deepcopy(defs[st.iter.id][0])
+        if isinstance(st, (ast.Assign, ast.AnnAssign)) and isinstance(getattr(st, 'value', None), ast.Call) and isinstance(st.value.func, ast.Name) \
+                and st.value.func.id == 'next' and st.value.args and isinstance(st.value.args[0], ast.GeneratorExp):
+            g0 = st.value.args[0].generators[0]
+            if isinstance(g0.iter, ast.Name) and g0.iter.id in defs:
+                g0.iter = copy.deepcopy(defs[g0.iter.id][0])
         stored = {n.id for n in ast.walk(st) if isinstance(n, ast.Name) and isinstance(n.ctx, (ast.Store, ast.Del))}
         mutated = stored | {n.func.value.id for n in ast.walk(st) if isinstance(n, ast.Call) and isinstance(n.func, ast.Attribute) and isinstance(n.func.value, ast.Name)}
         for k in [k for k, (_, reads) in defs.items() if k in mutated or reads & stored]:
@@ -638,11 +687,16 @@ def prepare(stmts: T.List[ast.stmt], owner_fn: T.Any = None) -> T.List[ast.stmt]
     owner = _OWNER.get(id(owner_fn)) if owner_fn is not None else None
     if owner is not None:
         body = _inline_block(body, owner, (owner[1],))
-    out: T.List[ast.stmt] = []
-    for s in _fuse_block(body):
-        r = _Prep().visit(s)
-        out.append(r)
-    return out
+    root = owner_fn if owner_fn is not None else ast.Module(body=body, type_ignores=[])
+    _RESULT_NAMES.append({n.value.id for n in ast.walk(root) if isinstance(n, ast.Return) and isinstance(n.value, ast.Name)})
+    try:
+        out: T.List[ast.stmt] = []
+        for s in _fuse_block(body):
+            r = _Prep().visit(s)
+            out.append(r)
+        return out
+    finally:
+        _RESULT_NAMES.pop()
 
 
 # ---------------------------------------------------------------------------
@@ -894,6 +948,7 @@ class SRow:
         self.value: T.Optional[ast.AST] = None      # substituted return value / raised expression
         self.path: T.Optional[Path] = None
         self.env: T.Dict[str, ast.AST] = {}
+        self.partial_try = False      # the statements contain try/except whose handlers were not enumerated: only the no-exception paths were read
         self.unentered = False        # some loop on this path ran zero times (the same path with the loop entered exists too)
 
     def effects(self, *kinds: str) -> T.List[Fx]:
@@ -1048,9 +1103,14 @@ class Sym:
         base = param_env(self.fn)
         if env0:
             base.update(env0)
+        # a handler that ends in `raise` only adds a raising path; one that falls through or returns supplies a value
+        # on a path this enumeration (handlers off) does not see
+        partial = not self.handlers and any(isinstance(n, ast.Try) and any(not (h.body and isinstance(h.body[-1], ast.Raise)) for h in n.handlers)
+                                            for st in stmts for n in walk_no_nested(st))
         for p in en.run(stmts):
             r = self.propagate(p, dict(base), loops)
             if r is not None:
+                r.partial_try = partial
                 out.append(r)
         return out
 
@@ -1187,6 +1247,8 @@ def compare(ctx: T.Any, mod: T.Any, qn: str, fn: ast.AST, tab: tables.Table, sem
             raise Undecided(f'{qn}: {len(rows)} rows with different outcomes fire in world { {repr(a): x for a, x in w.items()} }')
         g = gs[0]
         if g != want:
+            if any(getattr(getattr(r_, 'srow', None), 'partial_try', False) for r_ in rows):
+                raise Undecided(f'{qn}: row `{rows[0]!r}` disagrees with the {what}, but the code contains try/except whose handlers were not read')
             if any(a in rows[0].conds for a in unknown):
                 raise Undecided(f'{qn}: row `{rows[0]!r}` disagrees with the {what} but tests atoms outside the vocabulary: {unknown}')
             bad.setdefault(repr(rows[0]), (rows[0], g, want, {sem.get(a, repr(a)): x for a, x in w.items() if a in rows[0].conds}))
